@@ -71,8 +71,10 @@ size_t hx_dump_tx(char *buf, size_t n) {
 	const uint8_t *sb = vx_send_buffer();
 	for (size_t i = 0; i < vx_send_buffer_index() && o + 8 < n; i++) o += (size_t) snprintf(buf + o, n - o, "%02x", sb[i]);
 	o += (size_t) snprintf(buf + o, n - o, "];");
-	o += vx_dump_nodes(buf + o, n - o, (long) (1700000000L + (long) (vs_now_us() / 1000000ull)));
-	o += vx_dump_uplink_queues(buf + o, n - o);
+	if (bidib_running) {   /* after bidib_stop the node table pointer dangles (freed, not cleared) */
+		o += vx_dump_nodes(buf + o, n - o, (long) (1700000000L + (long) (vs_now_us() / 1000000ull)));
+		o += vx_dump_uplink_queues(buf + o, n - o);
+	}
 	return o;
 }
 void hx_emit_trace(void) {
